@@ -76,8 +76,10 @@ func (b *BoundedIterator) SeekToLast() {
 		// key before the end bound, but it works for now
 		b.Iterator.Seek(b.end)
 
-		// If we landed exactly at the end bound, back up one
-		if b.Iterator.Valid() && bytes.Equal(b.Iterator.Key(), b.end) {
+		// The seek lands on the end bound itself, on a key behind it, or
+		// nowhere (no key >= end): in every case the last key of the range is
+		// the greatest key before the end bound, so back up to it
+		if !b.Iterator.Valid() || bytes.Compare(b.Iterator.Key(), b.end) >= 0 {
 			// We need to back up because end is exclusive
 			// This is inefficient but correct
 			b.Iterator.SeekToFirst()
